@@ -349,6 +349,7 @@ func (e *Exec) stepAlloc(fr *frame, st *State, in *ssa.Alloc) {
 	case isStruct(t):
 		r := e.alloc(st)
 		e.storeObj(fr, st, r, t, e.ctx.zero(t), in.Pos(), true)
+		e.zeroLocks(st, r, t)
 		e.set(fr, in, Val{T: r, S: sInt})
 	case isArray(t):
 		r := e.alloc(st)
@@ -758,6 +759,7 @@ func (e *Exec) stepGo(fr *frame, st *State, in *ssa.Go) {
 	// are checked here, at the spawn site
 	var callee *ssa.Function
 	var bindings []Val
+	var goEnv *SpecEnv
 	fv := e.val(fr, in.Call.Value)
 	if fv.Clo != nil {
 		callee, bindings = fv.Clo.Fn, fv.Clo.Bindings
@@ -766,7 +768,11 @@ func (e *Exec) stepGo(fr *frame, st *State, in *ssa.Go) {
 	}
 	if callee != nil {
 		if spec := e.specOf(callee); spec != nil {
-			env := &SpecEnv{ex: e, st: st, old: st, vars: map[string]Val{}, fn: callee, spec: spec, callerFr: fr}
+			// a new goroutine holds no locks
+			gst := st.clone()
+			e.regHeap("G$lock", arraySort(sInt, sInt), nil, 'G', "")
+			gst.heaps["G$lock"] = "((as const (Array Int Int)) 0)"
+			env := &SpecEnv{ex: e, st: gst, old: gst, vars: map[string]Val{}, fn: callee, spec: spec, callerFr: fr}
 			names := paramNames(callee, in.Call.Signature())
 			for i, a := range in.Call.Args {
 				if i < len(names) {
@@ -780,15 +786,120 @@ func (e *Exec) stepGo(fr *frame, st *State, in *ssa.Go) {
 					// a captured variable is named by its content in contracts
 					t := fvv.Type().Underlying().(*types.Pointer).Elem()
 					env.vars[fvv.Name()] = env.loadRef(bindings[i].T, t)
+					if env.addrs == nil {
+						env.addrs = map[string]Val{}
+					}
+					env.addrs[fvv.Name()] = Val{T: bindings[i].T, S: sInt, GoT: fvv.Type()}
+				}
+			}
+			// logical variables of the spawned function's contract: bound by the
+			// spawner's `callghost` clauses
+			for _, gp := range spec.GhostParams {
+				var bound Expr
+				if m, ok := fr.specCallGhost(callee.Name()); ok {
+					bound = m[gp.Name]
+				}
+				if bound != nil {
+					cenv := e.specEnv(fr, st, nil)
+					for k, v := range fr.entryParams {
+						if _, isLocal := fr.locals[k]; !isLocal {
+							cenv.vars[k] = v
+						}
+					}
+					env.vars[gp.Name] = cenv.eval(bound)
+				} else {
+					t := env.resolveType(gp.Type)
+					if t == nil {
+						t = types.Typ[types.Int]
+					}
+					env.vars[gp.Name] = e.havocVal(st, t, "ghost_"+gp.Name)
+					e.note("%s: ghost parameter %s of spawned %s is not bound by a callghost clause: arbitrary", e.w.pos(in.Pos()), gp.Name, funcKey(callee))
 				}
 			}
 			for _, c := range spec.Requires {
 				v := env.eval(c.E)
 				e.oblige(fr, st, "pre:go:"+callee.Name(), "precondition of spawned "+funcKey(callee)+": "+c.Src, in.Pos(), v.T)
 			}
+			goEnv = &SpecEnv{ex: e, st: st, old: st, vars: env.vars, addrs: env.addrs, fn: callee, spec: spec, callerFr: fr}
 			e.trust("preconditions of goroutine " + funcKey(callee) + " are checked at the go statement and assumed stable until it runs")
 		} else {
 			e.note("%s: go statement spawns %s which has no contract", e.w.pos(in.Pos()), funcKey(callee))
+		}
+	}
+	if callee != nil {
+		if spec := e.specOf(callee); spec != nil && spec.HasMod && goEnv != nil {
+			// the goroutine's effects are bounded by its `modifies` (checked when
+			// the goroutine body is verified): the spawner forgets exactly those
+			// locations, from now on
+			var mods []heapLoc
+			for _, c := range spec.Modifies {
+				cond := ""
+				if c.When != nil {
+					cond = goEnv.eval(c.When).T
+				}
+				for _, l := range c.Locs {
+					for _, hl := range goEnv.evalLoc(l) {
+						hl.cond = cond
+						mods = append(mods, hl)
+					}
+				}
+			}
+			ws := map[string]bool{}
+			for k := range e.writeSet(callee) {
+				if k == "G$lock" {
+					continue
+				}
+				ws[k] = true
+			}
+			if !ws[wsAll] {
+				if e.spec != nil && e.spec.HasMod && !e.modAll {
+					for _, m := range mods {
+						c := m.cond
+						if c == "" {
+							c = "true"
+						}
+						if m.pred != nil || m.all {
+							e.oblige(fr, st, "frame-call:go:"+callee.Name(), "locations modified by the spawned function are inside caller's `modifies`", in.Pos(), fmt.Sprintf("(forall ((r Int)) (=> %s %s))", m.has("r"), e.inFrame(m.heap, "r")))
+						} else {
+							e.oblige(fr, st, "frame-call:go:"+callee.Name(), "location modified by the spawned function ("+m.heap+") is inside caller's `modifies`", in.Pos(), imp(c, e.inFrame(m.heap, m.ref)))
+						}
+					}
+				}
+				e.havocWrites(fr, st, ws, mods, spec, in.Pos(), funcKey(callee))
+				// rely/guarantee: what the goroutine guarantees at every point where
+				// its writes become visible may be assumed by the spawner
+				for _, c := range spec.Guarantees {
+					genv := &SpecEnv{ex: e, st: st, old: st, vars: goEnv.vars, fn: callee, spec: spec, callerFr: fr}
+					v := genv.eval(c.E)
+					e.ctx.assume(imp(st.pc, v.T))
+				}
+				e.trust("go statement in " + e.key + ": the spawned " + funcKey(callee) + " may from now on write the locations of its `modifies` clause; the spawner is assumed not to read them before joining")
+				return
+			}
+		}
+		ws := e.writeSet(callee)
+		if !ws[wsAll] {
+			// the goroutine may write these heaps at any time from now on: the
+			// spawner forgets them (it must not rely on them until it has joined)
+			names := make([]string, 0, len(ws))
+			for k := range ws {
+				names = append(names, k)
+			}
+			sort.Strings(names)
+			pre := st.nextRef
+			for _, name := range names {
+				if name == wsAlloc || name == wsFreshAll {
+					continue
+				}
+				if hi, ok := e.heapInfos[name]; !ok || hi.kind == 'G' || hi.kind == 'g' {
+					continue
+				}
+				e.havocHeap(st, name)
+			}
+			st.nextRef = e.ctx.fresh("nextRef", sInt)
+			e.ctx.assume(imp(st.pc, le(pre, st.nextRef)))
+			e.trust("go statement in " + e.key + ": the spawner forgets exactly the heaps the spawned function may write (" + strings.Join(names, " ") + ") and is assumed not to read them before joining")
+			return
 		}
 	}
 	e.note("%s: go statement: the spawner's view of shared memory is havoced", e.w.pos(in.Pos()))
@@ -856,4 +967,24 @@ func (e *Exec) mapAccess(fr *frame, st *State, m Val, write bool, pos token.Pos)
 	}
 	parts := strings.SplitN(m.From, ".", 2)
 	e.accessRules(fr, st, parts[0], parts[1]+"[]", m.FromOwner, write, pos)
+}
+
+// zeroLocks: a newly allocated sync.Mutex / sync.RWMutex (possibly embedded in
+// the allocated struct) is unlocked.
+func (e *Exec) zeroLocks(st *State, r string, t types.Type) {
+	if n, ok := t.(*types.Named); ok && n.Obj().Pkg() != nil && n.Obj().Pkg().Path() == "sync" &&
+		(n.Obj().Name() == "Mutex" || n.Obj().Name() == "RWMutex") {
+		e.regHeap("G$lock", arraySort(sInt, sInt), nil, 'G', "")
+		e.setHeap(st, "G$lock", sto(e.heapTerm(st, "G$lock"), r, "0"))
+		return
+	}
+	stt, ok := t.Underlying().(*types.Struct)
+	if !ok {
+		return
+	}
+	for i := 0; i < stt.NumFields(); i++ {
+		if isStruct(stt.Field(i).Type()) {
+			e.zeroLocks(st, app("emb", r, num(int64(i))), stt.Field(i).Type())
+		}
+	}
 }
